@@ -137,6 +137,23 @@ pub fn exports(args: &Args, reg: &[TypeEntry], log: &mut Log) {
             }
             files.insert(p.clone(), describe_file(&String::from_utf8_lossy(bytes)));
         }
+        // the same export once more in the same process after its output was deleted: the files come back
+        let mut reexport = json!(null);
+        if matches!(result, Ok(Ok(()))) {
+            let written: Vec<&String> = after.keys().filter(|p| !before.contains_key(*p)).collect();
+            for p in &written {
+                let _ = std::fs::remove_file(root.join(p));
+            }
+            let again = if use_env {
+                guarded(|| (e.export_all)())
+            } else {
+                let p = std::path::PathBuf::from(&spelling);
+                guarded(|| (e.export_all_to)(&p))
+            };
+            let third = files_only(&snapshot(&root));
+            let missing: Vec<&String> = written.iter().copied().filter(|p| third.get(*p) != after.get(*p)).collect();
+            reexport = json!({"result": format!("{again:?}"), "missing_or_different": missing});
+        }
         let collected: Vec<Value> = guarded(e.collect)
             .unwrap_or_default()
             .iter()
@@ -162,7 +179,7 @@ pub fn exports(args: &Args, reg: &[TypeEntry], log: &mut Log) {
             "ev": "root", "monitor": "exports", "id": e.id, "rust": e.rust, "esm": esm,
             "dir_spelling": spelling, "dname": dname, "via_default_dir": use_env, "pre_exported": pre_exported,
             "result": result_json,
-            "files": files, "untouched_ok": untouched_ok, "removed": removed, "stray_dirs": stray_dirs,
+            "files": files, "untouched_ok": untouched_ok, "removed": removed, "stray_dirs": stray_dirs, "reexport_after_delete": reexport,
             "collected": collected, "dependencies": deps, "decl_free": decl_free, "decl": decl_text,
             "ident": ident, "output_path": output_path, "default_output_path": default_output_path,
         }));
